@@ -538,6 +538,8 @@ def rule_i(ctx, out):
         "byte-store": _spec([("SUB", "Y", "X")], stores=[("MSTORE8", "X", "Y")]),
         "storage": _spec([("SLOAD", "X")], stores=[("SSTORE", "X", ("AND", "Y", 255)), ("SSTORE", "Z", 7)], sto_deps=[("SLOAD_0", "SSTORE_0"), ("SSTORE_0", "SSTORE_1")]),
         "hash": _spec([("KECCAK256", "X", 64)], stores=[("MSTORE", "X", "Y")], mem_deps=[("MSTORE_0", "KECCAK256_0")]),
+        # the same value several times in the final stack (a memo over values must not skip positions)
+        "repeated-target": _spec([("ADD", "X", "Y"), "Z", ("ADD", "X", "Y"), "X", "X", ("SUB", "Y", "X")]),
         # several accesses with the same opcode: the search for "the same access in the other block" has more than one candidate
         "two-loads": _spec([("SLOAD", "X"), ("SLOAD", "Y")], stores=[("SSTORE", "Z", 7)], sto_deps=[("SLOAD_0", "SSTORE_0"), ("SLOAD_1", "SSTORE_0")]),
         "three-mloads": _spec([("MLOAD", "X"), ("MLOAD", "Y"), ("MLOAD", ("ADD", "X", 64))], stores=[("MSTORE", "Z", "X")],
